@@ -54,6 +54,7 @@ def check(rep: Report, ctx: Ctx) -> None:
     r714(rep, ctx)
     r715(rep, ctx)
     r716(rep, ctx)
+    r718(rep, ctx)
     # r717(rep, ctx)   -- armed after the D8 triage (see DESIGN section 9)
 
 
@@ -1349,3 +1350,27 @@ def r717(rep: Report, ctx: Ctx) -> None:
     if sites < 12:
         raise AnalysisError(f"R7.17: only {sites} graph mutation sites "
                             "found (12 confirmed by hand)")
+
+
+def r718(rep: Report, ctx: Ctx) -> None:
+    """Two loop nodes of one level must not share a name: events are keyed by
+    type everywhere (sets, node map, diagram references).  Earlier loop nodes
+    can be absorbed into a later loop's body and pruned from the parent, so
+    the count of loop nodes present is not a fresh number - only "highest
+    number in use + 1" is."""
+    from .effspec import effects
+    rep.rule("R7.18", "a new loop node is named after the highest loop number "
+             "in use in the parent graph, plus one", 1)
+    fi = ctx.func("get_new_loop_event_type_from_graph")
+    rets = [e for e in effects(ctx, fi) if e.kind == "ret"]
+    role = rets[0].args[0] if len(rets) == 1 else ""
+    num = "int(each(P:graph.nodes).event_type.split('_')[1])"
+    ok = role.startswith("f'{LOOP_EVENT_TYPE}_{(") and role.endswith(
+        " Add 1)}'") and "max(" in role and num in role and not any(
+        t in role for t in ("len(", "sum(", "count("))
+    rep.ob("R7.18", "fresh loop name = LOOP_<max existing number + 1>", ok,
+           fi=fi, node=rets[0].node if rets else fi.node,
+           detail=f"returns {role[:260]}" + ("" if ok else
+           " -- not derived from the maximum number in use: after an "
+           "earlier loop node was absorbed and pruned, the next loop of the "
+           "level gets a name that is already taken"))
